@@ -58,3 +58,151 @@ def obligations(ctx):
         mag = abs(v)
         return "e2n_bigint_form", [[1 if v < 0 else 0], le_bytes(mag & (U64 - 1), 8), le_bytes((mag >> 64) & (U64 - 1), 8), le_bytes((mag >> 128) & (U64 - 1), 8)]
     ob.finish(E, nat)
+    struct_forms(ctx)
+
+
+# ---------------------------------------------------------------- struct-level forms against a table written from the Conway CDDL
+# type -> function(value-accessor) -> (tag | None, discriminant | None, [field paths]); a field path is a tuple of field names;
+# optional fields are written as null when absent (the CDDL's `x / null`) unless the form changes with their presence.
+def _forms():
+    F = {}
+    one = lambda *fs: [(f,) if isinstance(f, str) else f for f in fs]
+    F["StakeRegistration"] = lambda has: (None, 7, one("stake_credential", "coin")) if has("coin") else (None, 0, one("stake_credential"))
+    F["StakeDeregistration"] = lambda has: (None, 8, one("stake_credential", "coin")) if has("coin") else (None, 1, one("stake_credential"))
+    F["StakeDelegation"] = lambda has: (None, 2, one("stake_credential", "pool_keyhash"))
+    F["PoolRegistration"] = lambda has: (None, 3, [("pool_params", f) for f in ("operator", "vrf_keyhash", "pledge", "cost", "margin", "reward_account", "pool_owners", "relays", "pool_metadata")])
+    F["PoolRetirement"] = lambda has: (None, 4, one("pool_keyhash", "epoch"))
+    F["GenesisKeyDelegation"] = lambda has: (None, 5, one("genesishash", "genesis_delegate_hash", "vrf_keyhash"))
+    F["MoveInstantaneousRewardsCert"] = lambda has: (None, 6, one("move_instantaneous_reward"))
+    F["VoteDelegation"] = lambda has: (None, 9, one("stake_credential", "drep"))
+    F["StakeAndVoteDelegation"] = lambda has: (None, 10, one("stake_credential", "pool_keyhash", "drep"))
+    F["StakeRegistrationAndDelegation"] = lambda has: (None, 11, one("stake_credential", "pool_keyhash", "coin"))
+    F["VoteRegistrationAndDelegation"] = lambda has: (None, 12, one("stake_credential", "drep", "coin"))
+    F["StakeVoteRegistrationAndDelegation"] = lambda has: (None, 13, one("stake_credential", "pool_keyhash", "drep", "coin"))
+    F["CommitteeHotAuth"] = lambda has: (None, 14, one("committee_cold_credential", "committee_hot_credential"))
+    F["CommitteeColdResign"] = lambda has: (None, 15, one("committee_cold_credential", "anchor"))
+    F["DRepRegistration"] = lambda has: (None, 16, one("voting_credential", "coin", "anchor"))
+    F["DRepDeregistration"] = lambda has: (None, 17, one("voting_credential", "coin"))
+    F["DRepUpdate"] = lambda has: (None, 18, one("voting_credential", "anchor"))
+    F["ParameterChangeAction"] = lambda has: (None, 0, one("gov_action_id", "protocol_param_updates", "policy_hash"))
+    F["HardForkInitiationAction"] = lambda has: (None, 1, one("gov_action_id", "protocol_version"))
+    F["TreasuryWithdrawalsAction"] = lambda has: (None, 2, one("withdrawals", "policy_hash"))
+    F["NoConfidenceAction"] = lambda has: (None, 3, one("gov_action_id"))
+    F["NewConstitutionAction"] = lambda has: (None, 5, one("gov_action_id", "constitution"))
+    F["InfoAction"] = lambda has: (None, 6, [])
+    F["Anchor"] = lambda has: (None, None, one("anchor_url", "anchor_data_hash"))
+    F["GovernanceActionId"] = lambda has: (None, None, one("transaction_id", "index"))
+    F["Constitution"] = lambda has: (None, None, one("anchor", "script_hash"))
+    F["VotingProcedure"] = lambda has: (None, None, one("vote", "anchor"))
+    F["VotingProposal"] = lambda has: (None, None, one("deposit", "reward_account", "governance_action", "anchor"))
+    F["ExUnits"] = lambda has: (None, None, one("mem", "steps"))
+    F["UnitInterval"] = lambda has: (30, None, one("numerator", "denominator"))
+    F["TransactionInput"] = lambda has: (None, None, one("transaction_id", "index"))
+    F["ProtocolVersion"] = lambda has: (None, None, one("major", "minor"))
+    F["Vkeywitness"] = lambda has: (None, None, one("vkey", "signature"))
+    F["BootstrapWitness"] = lambda has: (None, None, one("vkey", "signature", "chain_code", "attributes"))
+    F["PoolMetadata"] = lambda has: (None, None, one("url", "pool_metadata_hash"))
+    F["OperationalCert"] = lambda has: (None, None, one("hot_vkey", "sequence_number", "kes_period", "sigma"))
+    F["SingleHostAddr"] = lambda has: (None, 0, one("port", "ipv4", "ipv6"))
+    F["SingleHostName"] = lambda has: (None, 1, one("port", "dns_name"))
+    F["MultiHostName"] = lambda has: (None, 2, one("dns_name"))
+    F["ScriptPubkey"] = lambda has: (None, 0, one("addr_keyhash"))
+    F["ScriptAll"] = lambda has: (None, 1, one("native_scripts"))
+    F["ScriptAny"] = lambda has: (None, 2, one("native_scripts"))
+    F["ScriptNOfK"] = lambda has: (None, 3, one("n", "native_scripts"))
+    F["TimelockStart"] = lambda has: (None, 4, one("slot"))
+    F["TimelockExpiry"] = lambda has: (None, 5, one("slot"))
+    return F
+
+
+SCALARS = {"Coin", "BigNum", "Epoch", "u32", "u16", "u64", "GovernanceActionIndex", "TransactionIndex", "Port", "SlotBigNum", "Slot32"}
+
+
+def struct_forms(ctx):
+    P = ctx.P
+    ob = Obligation(ctx, "c03_e2_struct_forms_vs_cddl", "every serializer path of 46 certificate / governance / relay / native-script / witness types on a lazily initialised value (optional fields present and absent, scalars symbolic)",
+                    ["<T as Serialize>::serialize for the types of the table in mir2smt/obl/c03.py"], fallback_native="e2n_c03_struct_forms")
+    agg = Engine(P)
+    forms = _forms()
+    covered = []
+    for ty, form in forms.items():
+        names, ftys = P.struct_fields.get(ty), getattr(P, "struct_field_types", {}).get(ty)
+        if names is None and ty == "InfoAction":
+            names, ftys = [], []          # a unit struct
+        if names is None:
+            ob.fail("type %s is no longer a struct with named fields" % ty); continue
+        E = Engine(P, max_loop=14)
+        CM.install(E, target=ty)
+        npaths = 0
+        try:
+            outs = E.explore("<%s as cbor_event::se::Serialize>::serialize" % ty, lambda: [VRef(Cell(VLazy("v", ty), "self")), VRef(Cell(CM.VSer(), "ser"))], max_paths=200)
+        except (Unsupported, PathAbort) as e:
+            ob.fail("%s: serializer cannot be executed (%s)" % (ty, str(e)[:100])); continue
+        for o in outs:
+            if o.kind != "return" or o.value.variant != "Ok":
+                continue
+            npaths += 1
+            E.enter(o)
+            toks = list(VM.deref(E, o.args[1]).tokens)
+            val = VM.deref(E, o.args[0])
+            def get(path, val=val):
+                """(value | None-for-absent, declared type) of a field path on the materialised value"""
+                v, t = val, ty
+                for f in path:
+                    fn, ft = P.struct_fields[t], P.struct_field_types[t]
+                    i = fn.index(f)
+                    v = VM.deref(E, v.fields[i]) if isinstance(v, VStruct) else VM.deref(E, E.nav(v, [("field", i, ft[i])]))
+                    t = last_seg(ft[i]) if not ft[i].startswith("Option<") else "Option<%s>" % last_seg(ft[i][7:-1])
+                return v, t
+            def has(f):
+                v, t = get((f,))
+                if isinstance(v, VLazy):
+                    v = E.force_enum(v)
+                return isinstance(v, VEnum) and v.variant == "Some"
+            try:
+                tag, disc, fields = form(has)
+                exp = []
+                if tag is not None:
+                    exp.append(("tag", tag))
+                exp.append(("array", len(fields) + (1 if disc is not None else 0)))
+                if disc is not None:
+                    exp.append(("uint", z3.IntVal(disc)))
+                for path in fields:
+                    v, t = get(path)
+                    if t.startswith("Option<"):
+                        if isinstance(v, VLazy):
+                            v = E.force_enum(v)
+                        if v.variant != "Some":
+                            exp.append(("special", "Null")); continue
+                        v, t = VM.deref(E, v.fields[0]), t[7:-1]
+                    if t in SCALARS:
+                        while isinstance(v, VStruct) and len(v.fields) == 1:
+                            v = VM.deref(E, v.fields[0])
+                        exp.append(("uint", v.t if isinstance(v, VInt) else None))
+                    elif t == "Vec":
+                        exp.append(("bytes", E.as_u(v)))
+                    elif t == "VoteKind":
+                        exp.append(("uint", None))
+                    else:
+                        exp.append(("item", E.as_u(v)))
+            except (Unsupported, KeyError, ValueError, AttributeError, IndexError) as e:
+                ob.fail("%s: the table cannot be evaluated on this path (%r)" % (ty, e)); continue
+            what = "%s (%s)" % (ty, ", ".join("%s=%s" % (f, "Some" if has(f) else "None") for f, t in zip(names, ftys) if t.startswith("Option<")) or "no optional fields")
+            got_shape = [(t[0], t[1]) if t[0] in ("array", "tag") else ((t[0], t[1]) if t[0] == "special" else (t[0],)) for t in toks]
+            exp_shape = [(t[0], t[1]) if t[0] in ("array", "tag", "special") else (t[0],) for t in exp]
+            if got_shape != exp_shape:
+                ob.violation("%s: emitted form %s, the CDDL prescribes %s" % (what, got_shape, exp_shape)); continue
+            eqs = []
+            for g, e_ in zip(toks, exp):
+                if e_[0] in ("uint", "item", "bytes") and len(e_) > 1 and e_[1] is not None:
+                    eqs.append(g[1] == e_[1])
+            if eqs:
+                ob.vc("%s: discriminant and fields in CDDL order" % what, o.pc, z3.And(eqs))
+        if npaths == 0:
+            ob.fail("%s: no serializer path returned Ok" % ty)
+        else:
+            covered.append("%s(%d)" % (ty, npaths))
+        agg.stats["paths"] += E.stats["paths"]; agg.stats["feasibility_queries"] += E.stats["feasibility_queries"]; agg.stats["functions"] |= E.stats["functions"]
+    ob.bound += ". Covered (serializer paths): " + ", ".join(covered)
+    ob.cross_every = 10
+    ob.finish(agg)
